@@ -19,6 +19,12 @@ claimed = {
  "C05": ("stateless model checking of the rewritten real code: exhaustive event-history enumeration against a reference REP/RESPONDENT routing model (cooked and raw) + deviation-bounded schedule exploration",
          "Every history of request arrivals (routing-header depths and contents, malformed variants) from 2 connections, Recv/Send/Close on 2 contexts and connection loss up to the stated depth runs on the real rep, respondent, xrep and xrespondent code; every reply written to the wire must appear only on the requesting connection with exactly the saved routing header.",
          "DESIGN.md §6 C05"),
+ "C06": ("stateless model checking of the rewritten real code: exhaustive enumeration of subscription sets x bodies against a reference prefix matcher, exhaustive subscribe/unsubscribe/publish/recv histories on 2 contexts and 2 publishers, deviation-bounded schedule exploration of unsubscribe vs arrival and of PUB fan-out",
+         "All subscription sets of size <= 2 over the 21 byte strings of length <= 2 over {00,'a','b',ff} are checked against every body; every history up to the stated depth is compared with a per-context FIFO reference model (match at arrival, purge on unsubscribe, context independence); PUB/XPUB fan-out to a fast and a slow subscriber is explored over all schedules within the deviation bound.",
+         "DESIGN.md §6 C06"),
+ "C07": ("stateless model checking of the rewritten real code under virtual time: exhaustive survey/recv/response/clock/close histories against a reference SURVEYOR model + schedule exploration with early-timer deviations",
+         "Every history up to the stated depth over {survey, recv, responses with current/stale/foreign/malformed ids from 2 respondents, advance T and T/2, close} on 2 contexts runs on the real surveyor code with a virtual clock; delivery, broadcast completeness, cancellation and prompt protocol-state failure are compared with the model at every quiescence; expiry racing a response and a new survey racing a stale response are explored over all schedules within the deviation bound.",
+         "DESIGN.md §6 C07"),
 }
 
 not_applicable = {}
